@@ -92,3 +92,7 @@ CLAIMED["C15"] = (
  "table agreement lint over the three per-kind hand-offs of a constant (type checker's representability bounds evaluated as Go constants from the source; back end's accessor / wir type / float precision per kind; literal spelling produced by the materialiser vs. parser used by the static-data encoder)",
  "Decides that the representability bounds of every sized integer kind are exactly the kind's range, that every kind is materialised through the accessor of its signedness into the wir type of that kind with the kind's float precision, and that each literal spelling is parsed back with the same width and signedness by the static-data encoder. Does not decide the arithmetic of internal/constant, per-operator overflow detection, or float rounding.",
  AST_BASE)
+CLAIMED["C07"] = (
+ "writer/reader agreement lint per language pair (parser, printer) and (w2parser, w2printer): interface-implementer enumeration of parser-built node types vs. the printers' total type switches; parser-stored AST fields vs. printer-read fields with a reasoned exception table; language pairing in format.File",
+ "Decides that each printer's total dispatchers over expressions and statements list every node type its paired parser builds, that every syntactic (non-positional, non-resolution) AST field the parser stores is read by the printer, and that format.File sends each language to its own parser and printer. Does not decide idempotence, comment placement, line breaking, or that the output re-parses to the same tree.",
+ AST_BASE)
